@@ -8,7 +8,10 @@
    schema := N | Pb | Pi<K> | Pr<K> | Ps | Py | Pu | Pd<K>:<precision>:<scale> | L<schema> | O{<hexname>=schema,...}
    frag   := N<r> | P<r>;<pval> | L<r>[frag,...] | O<r>[frag,...]      r := - | x<hex>
    pval   := b0 | b1 | i<z> | l<z> | e<bits> | g<bits> | y<hex>
-   columns:= col;col;...   col := _ | leaf,leaf,...   leaf := x<hex> | pval (y<hex> printed as x<hex>) *)
+   columns:= col;col;...   col := _ | leaf,leaf,...   leaf := x<hex> | pval (y<hex> printed as x<hex>)
+   path   := . | step/step/...   step := f<hexname> | e          (Field name | Elements)
+   row    := _ (no value: a null row) | tree
+   entries:= _ | entry entry ...   entry := <row>:<tree> | <row>:-   (- = missing; trees in canonical field order) *)
 open Conv
 open Model
 
@@ -220,3 +223,25 @@ let () =
   register "c19.metadata_header" (function
     | [sorted; sizes] -> tok_of_bytes (Model.metadata_header (sorted = "1") (list_of_tok n_of_hex sizes))
     | _ -> failwith "c19.metadata_header args")
+(* typed navigation of the logical values of a window (Variant/Navigate.v) *)
+let path_of_tok (t : string) : Model.step list =
+  if t = "." then [] else
+  List.map (fun s ->
+    if s = "e" then StElems
+    else if String.length s >= 1 && s.[0] = 'f' then StField (bytes_of_hex (String.sub s 1 (String.length s - 1)))
+    else failwith "path step") (String.split_on_char '/' t)
+let row_of_tok t = if t = "_" then None else Some (parse tree t)
+let () =
+  register "c19.navigate" (function
+    | p :: rows ->
+        let es = Model.navigate_rows (path_of_tok p) (List.map row_of_tok rows) in
+        if es = [] then "_" else
+        String.concat " " (List.map (fun (r, o) ->
+          hex_of_n r ^ ":" ^ (match o with Some v -> tok_of_tree v | None -> "-")) es)
+    | _ -> failwith "c19.navigate args");
+  (* ListOffsets of the cursor at the path when its Elements cursor is read *)
+  register "c19.offsets" (function
+    | p :: rows ->
+        let es = Model.navigate (path_of_tok p) (Model.root_entries (List.map row_of_tok rows)) in
+        String.concat "," (List.map hex_of_n (Model.offsets es))
+    | _ -> failwith "c19.offsets args")
